@@ -559,6 +559,7 @@ where
             }
             let x = &elems[i as usize];
             let fx = mk(x);
+            let row = catch(|| {
             for y in elems {
                 let fy = mk(y);
                 let chk = |op: &str, got: F, want: BigUint, acc: &mut Vec<(String, String, String)>| {
@@ -616,6 +617,11 @@ where
                 if !acc.is_empty() {
                     return;
                 }
+            }
+            });
+            if let Err(m) = row {
+                // e.g. the library's own debug assertion "element fully reduced" fired
+                acc.push((format!("panic({})", m.chars().take(60).collect::<String>()), x.to_string(), "*".into()));
             }
         },
     );
@@ -875,6 +881,14 @@ fn check_field255(run: &Run) {
     }
 }
 
+/// A panic inside a sub-check on well-formed operands (e.g. the library's own "fully reduced"
+/// debug assertion firing) is a violation of that field's arithmetic, not a harness crash.
+fn guard(run: &Run, key: &str, f: impl FnOnce()) {
+    if let Err(m) = catch(f) {
+        run.fail(&format!("{key}/panic"), &format!("{key}: panic on well-formed operands: {m}"), json!({"field": key}));
+    }
+}
+
 fn main() {
     let run = Run::from_args("C09", Level::Exploration);
     run.rule("(A) raw generic FieldOps at u8/u16 words: every (x,y) in [0,p)^2 for add/sub/mul, every raw word for montgomery, every exponent word for pow, vs plain integer arithmetic; (B) make_field! API over small fields: all pairs, all byte strings; (C) deployed fields: limb-boundary lattice, all pairs, vs BigUint; distinct = distinct (field, element) rows / parameter sets exercised");
@@ -903,41 +917,41 @@ fn main() {
     run.sample(json!({"ops": "FP128", "op": "mul", "x": "2^64-1", "y": "p-1", "domain": "Montgomery"}));
 
     // (B) public API, small fields: exhaustive
-    check_api::<FieldV17>(&run, "FieldV17", &all_elems(17), true);
-    check_api::<FieldV97>(&run, "FieldV97", &all_elems(97), true);
-    check_api::<FieldV193>(&run, "FieldV193", &all_elems(193), true);
-    check_api::<FieldV241>(&run, "FieldV241", &all_elems(241), true);
-    check_api::<FieldV257>(&run, "FieldV257", &all_elems(257), true);
-    check_api::<FieldS257>(&run, "FieldS257", &all_elems(257), true);
-    check_api::<FieldV769>(&run, "FieldV769", &all_elems(769), true);
+    guard(&run, "api/FieldV17", || check_api::<FieldV17>(&run, "FieldV17", &all_elems(17), true));
+    guard(&run, "api/FieldV97", || check_api::<FieldV97>(&run, "FieldV97", &all_elems(97), true));
+    guard(&run, "api/FieldV193", || check_api::<FieldV193>(&run, "FieldV193", &all_elems(193), true));
+    guard(&run, "api/FieldV241", || check_api::<FieldV241>(&run, "FieldV241", &all_elems(241), true));
+    guard(&run, "api/FieldV257", || check_api::<FieldV257>(&run, "FieldV257", &all_elems(257), true));
+    guard(&run, "api/FieldS257", || check_api::<FieldS257>(&run, "FieldS257", &all_elems(257), true));
+    guard(&run, "api/FieldV769", || check_api::<FieldV769>(&run, "FieldV769", &all_elems(769), true));
     if !run.quick() {
-        check_api::<FieldV7681>(&run, "FieldV7681", &all_elems(7681), true);
+        guard(&run, "api/FieldV7681", || check_api::<FieldV7681>(&run, "FieldV7681", &all_elems(7681), true));
     }
     let sub16 = |p: u128| -> Vec<BigUint> {
         let l = lattice(&BigUint::from(p), 16, 16, run.seed, false);
         l
     };
-    check_api::<FieldV12289>(&run, "FieldV12289", &sub16(12289), true);
-    check_api::<FieldS12289>(&run, "FieldS12289", &sub16(12289), true);
-    check_api::<FieldV40961>(&run, "FieldV40961", &sub16(40961), true);
-    check_api::<FieldS40961>(&run, "FieldS40961", &sub16(40961), true);
-    check_api::<FieldV61441>(&run, "FieldV61441", &sub16(61441), true);
-    check_api::<FieldS61441>(&run, "FieldS61441", &sub16(61441), true);
+    guard(&run, "api/FieldV12289", || check_api::<FieldV12289>(&run, "FieldV12289", &sub16(12289), true));
+    guard(&run, "api/FieldS12289", || check_api::<FieldS12289>(&run, "FieldS12289", &sub16(12289), true));
+    guard(&run, "api/FieldV40961", || check_api::<FieldV40961>(&run, "FieldV40961", &sub16(40961), true));
+    guard(&run, "api/FieldS40961", || check_api::<FieldS40961>(&run, "FieldS40961", &sub16(40961), true));
+    guard(&run, "api/FieldV61441", || check_api::<FieldV61441>(&run, "FieldV61441", &sub16(61441), true));
+    guard(&run, "api/FieldS61441", || check_api::<FieldS61441>(&run, "FieldS61441", &sub16(61441), true));
     run.sample(json!({"field": "FieldV17", "op": "all binary ops + eq/hash/encode", "x": "0..16", "y": "0..16"}));
 
     // (C) public API, deployed fields on the lattice
     let coarse = run.quick();
     let l32 = lattice(&BigUint::from(FieldPrio2::modulus()), 32, run.pick(8, 64), run.seed, false);
-    check_api::<FieldPrio2>(&run, "FieldPrio2", &l32, false);
+    guard(&run, "api/FieldPrio2", || check_api::<FieldPrio2>(&run, "FieldPrio2", &l32, false));
     let l64 = lattice(&BigUint::from(Field64::modulus()), 64, run.pick(8, 64), run.seed, coarse);
-    check_api::<Field64>(&run, "Field64", &l64, false);
+    guard(&run, "api/Field64", || check_api::<Field64>(&run, "Field64", &l64, false));
     let l128 = lattice(&BigUint::from(Field128::modulus()), 128, run.pick(8, 64), run.seed, coarse);
-    check_api::<Field128>(&run, "Field128", &l128, false);
+    guard(&run, "api/Field128", || check_api::<Field128>(&run, "Field128", &l128, false));
     run.note("lattice_sizes", json!({"FieldPrio2": l32.len(), "Field64": l64.len(), "Field128": l128.len()}));
     run.sample(json!({"field": "Field128", "op": "mul", "x": l128[l128.len() / 2].to_string(), "y": l128[l128.len() - 1].to_string()}));
 
     // (D) Field255
-    check_field255(&run);
+    guard(&run, "api/Field255", || check_field255(&run));
     run.exhaustive(true);
     run.note("exhaustive_scope", json!("every odd prime < 2^8 (single-word u8/u16) fully; 16-bit primes single- and split-word: fully in thorough, p<=8191 fully + boundary rows x all columns in quick; deployed fields: lattice only"));
     run.finish();
